@@ -19,6 +19,8 @@ func e2Report(c *fw.Case, sum *e2Summary, label string) {
 	c.Obs("crash_images", int64(sum.images))
 	c.Obs("distinct_images_recovered", int64(sum.judged))
 	c.Obs("images_judged_after_continuation", int64(sum.contJudged))
+	c.Obs("sessions_with_concurrent_clients", int64(sum.concurrent))
+	c.ObsMax("max_calls_in_flight_at_once", int64(sum.maxInflight))
 	for ph, n := range sum.byPhase {
 		// an image can lie inside several activities at once (e.g. a flush during Close while a compaction runs)
 		for _, part := range strings.Split(ph, "+") {
